@@ -70,7 +70,17 @@ func scenarioC18(c *hlib.RunCtx) *hlib.Violation {
 	// siblings whose names share prefixes.
 	dayPool := []int{refcal.DaysFromCivil(1990, 1, 1) + t.Draw(25567)}
 	dayPool = append(dayPool, dayPool[0]+1+t.Draw(9), dayPool[0]+10+t.Draw(300))
-	genName := func() string {
+	var genName func() string
+	genName1 := func() string {
+		// a sibling of a stored object: its name plus a suffix an implementation
+		// might use for itself (temporary files, backups, locks)
+		if len(model) > 0 && t.Bool(1, 6) {
+			keys := sortedKeys(model)
+			return keys[t.Draw(len(keys))] + []string{".tmp", ".bak", "~", ".lock", ".tmp1", ".new"}[t.Draw(6)]
+		}
+		return genName()
+	}
+	genName = func() string {
 		// names the services construct, or nested ordinary components
 		switch t.Draw(4) {
 		case 0:
@@ -98,7 +108,7 @@ func scenarioC18(c *hlib.RunCtx) *hlib.Violation {
 	for i := 0; i < nops && viol == nil; i++ {
 		switch t.Draw(4) {
 		case 0, 1: // write / overwrite
-			name := genName()
+			name := genName1()
 			if isPrefixConflict(name) {
 				continue // a file system cannot hold an object whose name is a path prefix of another
 			}
@@ -121,6 +131,34 @@ func scenarioC18(c *hlib.RunCtx) *hlib.Violation {
 				break
 			}
 			w.Write(data)
+			if t.Bool(1, 5) {
+				// a listing taken while this object is being written: whether the
+				// object itself shows up is not judged, every other name is
+				var got, want []string
+				it := bh.Objects(ctx, "")
+				for {
+					n, err := it.Next()
+					if err != nil {
+						break
+					}
+					if n != name {
+						got = append(got, n)
+					}
+				}
+				for n := range model {
+					if n != name {
+						want = append(want, n)
+					}
+				}
+				sort.Strings(got)
+				sort.Strings(want)
+				if !reflect.DeepEqual(got, want) && !(len(got) == 0 && len(want) == 0) {
+					fail("list", "a listing taken while %q was being written returned %v besides it, the stored names are %v", name, got, want)
+					w.Close()
+					break
+				}
+				s.Probe("listing-during-write")
+			}
 			if err := w.Close(); err != nil {
 				fail("write-failed", "closing %q: %v", name, err)
 				break
